@@ -27,6 +27,8 @@ theorem written_stable_step (s s' : St) (e : Ev) (hs : step s e = some s') (u : 
   | some o =>
     cases e with
     | newp q => simp only [step] at hs; split at hs <;> simp at hs; subst hs; exact ⟨thu, hu, hw, rfl⟩
+    | newpe q e0 => simp only [step] at hs; split at hs <;> simp at hs; subst hs; exact ⟨thu, hu, hw, rfl⟩
+    | checkLike c ok => simp only [step] at hs; split at hs <;> simp at hs; subst hs; exact ⟨thu, hu, hw, rfl⟩
     | quiesce bb B => simp only [step] at hs; split at hs <;> simp at hs; subst hs; exact ⟨thu, hu, hw, rfl⟩
     | invSet t q v e' =>
       simp only [step] at hs; split at hs <;> simp at hs; subst hs
@@ -104,8 +106,13 @@ theorem written_stable_step (s s' : St) (e : Ev) (hs : step s e = some s') (u : 
 theorem refOK_step (s s' : St) (e : Ev) (hs : step s e = some s') (r : PRef) (h : refOK s r) : refOK s' r := by
   cases r with
   | plain p =>
-    have := proms_len_step s s' e hs
-    simp only [refOK] at h ⊢; omega
+    simp only [refOK, notBorn] at h ⊢
+    cases hp : s.proms[p]? with
+    | none => simp [hp] at h
+    | some pr =>
+      simp [hp] at h
+      obtain ⟨pr', h1, h2⟩ := born_flag_step s s' e hs p pr hp
+      simp [h1, h2, h]
   | fixed u x =>
     obtain ⟨thu, hu, hts⟩ := h
     have hw : thu.ts.written = true := by rcases hts with h | h <;> rw [h] <;> rfl
@@ -341,7 +348,7 @@ theorem rs_internal (s s' : St) (e : Ev) (b : Book) (hi : Inv s) (hR : RS s b)
       simp only [SeenOK]; intro h; omega
     · rename_i v hp
       subst hs
-      have hv := published_pos s hi r v _ hp
+      have hv := published_pos s hi r v _ hr hp
       refine rs_local s _ _ b hi hR hs0 t th _ ht rfl rfl rfl ?_
       intro _ c hc
       refine ⟨by rw [hts]; rfl, fun _ so => ?_⟩
@@ -356,7 +363,7 @@ theorem rs_internal (s s' : St) (e : Ev) (b : Book) (hi : Inv s) (hR : RS s b)
       exact fun _ => viaRes v _ _ c hs0 hp so
     · rename_i v x _ _ hp
       subst hs
-      have hv := published_pos s hi r v _ hp
+      have hv := published_pos s hi r v _ hr hp
       refine rs_local s _ _ b hi hR hs0 t th _ ht rfl rfl rfl ?_
       intro _ c hc
       refine ⟨by rw [hts]; rfl, fun _ so => ?_⟩
@@ -587,6 +594,15 @@ theorem rs_obs (s s' : St) (e : Ev) (o : Obs) (b : Book) (hi : Inv s) (hk : RK s
     simp only [step] at hs; split at hs <;> simp at hs; subst hs
     exact rs_same s _ _ b _ hi hR hs0 rfl (fun u thu' h _ => ⟨thu', h, rfl, fun h => h⟩)
       (fun y thy' wk h1 h2 => ⟨thy', h1, h2⟩) (fun u c' h _ => ⟨c', h, fun x hx => hx⟩)
+  | newpe p e' =>
+    simp [Ev.obs] at ho; subst ho
+    simp only [step] at hs; split at hs <;> simp at hs; subst hs
+    exact rs_same s _ _ b _ hi hR hs0 rfl (fun u thu' h _ => ⟨thu', h, rfl, fun h => h⟩)
+      (fun y thy' wk h1 h2 => ⟨thy', h1, h2⟩) (fun u c' h _ => ⟨c', h, fun x hx => hx⟩)
+  | checkLike c ok =>
+    simp [Ev.obs] at ho; subst ho
+    simp only [step] at hs; split at hs <;> simp at hs; subst hs
+    exact hR
   | quiesce bb B =>
     simp [Ev.obs] at ho; subst ho
     simp only [step] at hs; split at hs <;> simp at hs
@@ -815,7 +831,7 @@ theorem cur_ok (s s' : St) (e : Ev) (o : Obs) (b : Book) (hi : Inv s) (hk : RK s
           simp only
           cases r with
           | plain p' =>
-            obtain ⟨thw, ew, hthw, hkw, _⟩ := published_setter s hi p' v xr hr3
+            obtain ⟨thw, ew, hthw, hkw, _⟩ := published_setter s hi p' v xr hv1 hr3
             have := (hk.call (v - 1) thw w hthw hw).kind
             rw [hkw] at this
             simp [this, hr2, hkind]
